@@ -69,7 +69,9 @@ for t in DESC["targets"]:
     else:
         kw = {}
         if t.get("wd"):
-            kw["working_dir"] = os.path.join(HERE, t["wd"])
+            # rel_twd: the template names its directory relative to the current directory (only used when every
+            # command is invoked from the directory of the workflow file, where that means the same as HERE/wd)
+            kw["working_dir"] = t["wd"] if DESC.get("rel_twd") else os.path.join(HERE, t["wd"])
         tpl = AnonymousTarget(inputs=dec(t.get("inputs", [])), outputs=dec(t.get("outputs", [])),
                               options=t.get("template_options") or {}, protect=dec(t.get("protect", [])),
                               spec=t.get("spec", ""), **kw)
